@@ -215,6 +215,7 @@ Step(e) ==
     [] e.e = "waitsig" ->
          /\ CheckAll({"C11", "C20"}, <<"kept-alive-without-requested-service">>, \E r \in Roots : ServiceBehind(r))
          /\ Check("C04", <<"waiting-for-signal-before-everything-ran">>, CompleteOK)
+         /\ CheckAll({"C07", "C10"}, <<"kept-waiting-for-a-signal-although-a-target-failed">>, \A t \in Closure : ~failed[t])
          /\ waited' = TRUE
          /\ Keep(<<g, word, ready, failed, nStart, nSkip, inst, shells, lastRes, ver, gen, builtFrom, sees, signalled, rootErr, begunOK, lastFin>>)
     [] e.e = "proc" ->      \* process table scan by the driver after zinoma exited
@@ -231,6 +232,9 @@ Step(e) ==
          /\ CheckAll({"C06"}, <<"watch-session-ended-by-itself">>, ~e.early)
          /\ CheckAll({"C06"}, <<"last-change-not-built", e.inv, e.outv>>, ~e.early => e.outv = e.inv)
          /\ CheckAll({"C16", "C06"}, <<"rebuilds-without-any-change", e.extra>>, e.extra = 0)
+         /\ UNCHANGED mon
+    [] e.e = "indep" ->     \* when a target that depends on nothing slow got to run, while 6-second command probes of others ran
+         /\ Check("C17", <<"independent-target-delayed-by-unrelated-work", e.ms>>, e.ms <= 3000)
          /\ UNCHANGED mon
     [] e.e = "exit" ->
          /\ CheckAll({"C10"} \cup (IF \E t \in T : inst[t] # {} THEN {"C11"} ELSE {}), <<"process-alive-at-exit">>,
